@@ -27,8 +27,8 @@ def reviewedWhitelist : List (NondetItem × String) := [
     "simulator genesis generation (a *rand.Rand parameter type of the simulation framework); not reachable from block execution"),
   (⟨"random", "app/state.go", "AppStateRandomizedFn", "math/rand.Rand", "981bd13573"⟩,
     "simulator genesis generation; not reachable from block execution"),
-  (⟨"wallClock", "x/epochs/keeper/abci.go", "(Keeper).BeginBlocker", "time.Now", "09efdc2ddd"⟩,
-    "argument of the deferred telemetry.ModuleMeasureSince only (a metrics gauge); the epoch logic reads ctx.BlockTime()"),
+  (⟨"wallClock", "x/epochs/keeper/abci.go", "(Keeper).BeginBlocker", "time.Now", "8e7e606818"⟩,
+    "the statement is `defer telemetry.ModuleMeasureSince(..., time.Now(), ...)`: a metrics gauge only; the epoch logic reads ctx.BlockTime()"),
   (⟨"recvFieldWrite", "x/epochs/keeper/keeper.go", "(*Keeper).SetHooks", "k.hooks", "9a3aba0993"⟩,
     "wiring time (app.go, once per construction, panics if set twice); identical after every restart"),
   (⟨"recvFieldWrite", "x/onboarding/keeper/keeper.go", "(*Keeper).SetErc20Keeper", "k.erc20Keeper", "a0c0a6dde2"⟩,
